@@ -514,9 +514,9 @@ def corr_expmv(ctx, items):
         if info is not None:
             ctx.count("corr:expmv:" + ("same-path" if same_path else "different-path"))
         d = float(np.linalg.norm(w - wm) / max(np.linalg.norm(w), 1e-300))
-        # same accept/reject path: agreement to round-off; different path (a comparison flipped by rounding): both runs are within the
-        # oracle bound of exp(tF)v, so within twice that bound of each other
-        bound = 1e-8 * amp if same_path else (2 * max(100 * case["tol"], 1e-9) + 1e-8) * amp
+        # both runs are within the oracle bound of exp(tF)v, hence within twice that bound of each other (+1e-8 round-off).  A tighter bound is
+        # not sound even on the same accept/reject path: classical Gram-Schmidt amplifies summation-order differences up to the truncation error.
+        bound = (2 * max(100 * case["tol"], 1e-9) + 1e-8) * amp
         kx = "corr_expmv_max_dev_over_bound:" + ("same-path" if same_path else "different-path")
         ctx.extra[kx] = max(ctx.extra.get(kx, 0.0), d / bound)
         if not d <= bound:
@@ -800,7 +800,8 @@ def eval_lin(ctx, case, corr=None):
                 e = float(np.linalg.norm(xf - xs) / np.linalg.norm(xs))
                 if e > 1e-9 * cond * 100:
                     ctx.fail("oracle", "c18:lin:solution", f"Krylov space is complete but the solution differs from numpy.linalg.solve by {e:.2e} (cond {cond:.1e})", case=case, concrete=True)
-    if corr is not None:
+    if corr is not None and len(Xq) >= 1 and delta <= 1e-9:
+        # (after loss of orthogonality model and real code legitimately follow different rounding paths)
         corr.append((case, P, b, x0, ncv, xf, res))
 
 
